@@ -342,15 +342,9 @@ theorem basic_last (l : AliasLink) (f : Str) (h : l.fundamental = some f) :
     intro x; simp [isEquivFund, AliasLink.ty, h]
   have hc : l.ty.isConst = l.isConst := rfl
   unfold fundDefault transferDefaultReturnBasic isEquivBasicGir isEquivAny isEquivNone
-  simp only [e, hc]
+  rw [funext e]
+  simp only [hc]
   cases l.isConst <;> simp
-
-theorem fundDefault_none_of_walk (l : AliasLink) (f : Str) (h : l.fundamental = some f)
-    (hb : transferDefaultReturnBasic l.ty = none) : fundDefault f = none ∧ l.isConst = false := by
-  rw [basic_last l f h] at hb
-  cases hl : l.isConst
-  · simp [hl] at hb; exact ⟨hb, rfl⟩
-  · simp [hl] at hb
 
 /-- the chain walk computes the documented default for every well-formed typedef chain -/
 theorem aliasChainDefault_chain (mid : List AliasLink) (last : AliasLink) (f : Str)
